@@ -35,7 +35,7 @@ def theorems(path: str) -> list[str]:
 def main() -> None:
     ids = sys.argv[1:] or sorted({re.match(r'(C\d\d)', f).group(1) for f in os.listdir(props) if re.match(r'C\d\d.*\.lean$', f)})
     for pid in ids:
-        mods = sorted(f[:-5] for f in os.listdir(props) if re.match(pid + r'[A-Za-z_]*\.lean$', f))
+        mods = sorted(f[:-5] for f in os.listdir(props) if re.match(pid + r'(?:[A-Za-z_][A-Za-z0-9_]*)?\.lean$', f))
         lines = [f'import WcModel.Properties.{m}' for m in mods]
         n = 0
         for m in mods:
